@@ -535,3 +535,503 @@ Section ScriptModel.
         split; [intros _; exact F4|]. split; [discriminate|reflexivity].
   Qed.
 End ScriptModel.
+
+(* ---------------- well-formed inputs ---------------- *)
+Definition wf_script (k : mgr) (sc : script) : bool :=
+  match k with
+  | MDyn => negb (Nat.eqb (sc_n sc) 0)
+            && forallb (fun r => nodupb (r_next r)
+                                 && forallb (fun a => Nat.ltb a (sc_n sc)) (r_next r)) (sc_rows sc)
+  | MTurnPrefix => false
+  | _ => true
+  end.
+
+(* the shuffled list the oracle supplies is a permutation of the submission (all-step) or the
+   submission itself *)
+Definition wf_call (k : mgr) (c : call Z) : bool :=
+  match c with
+  | CReset => true
+  | CStep acts sh => match k with MAll => perm_kvs acts sh | _ => kvs_eqb acts sh end
+  end.
+
+Lemma nodupb_true l : nodupb l = true -> NoDup l.
+Proof.
+  induction l as [|a l IH]; intros H; [constructor|]. simpl in H.
+  apply andb_true_iff in H as [H1 H2]. constructor; [|apply IH, H2].
+  apply memb_false_In, negb_true_iff, H1.
+Qed.
+
+Lemma existsb_false {A} (f : A -> bool) l : (forall x, In x l -> f x = false) -> existsb f l = false.
+Proof.
+  induction l as [|a l IH]; intros H; [reflexivity|]. simpl. rewrite (H a (or_introl eq_refl)).
+  apply IH. intros x Hx. apply H. right. exact Hx.
+Qed.
+
+Lemma forallb_map_true {A B} (g : A -> B) (f : B -> bool) l :
+  (forall a, In a l -> f (g a) = true) -> forallb f (map g l) = true.
+Proof.
+  intros H. apply forallb_forall. intros y Hy. apply in_map_iff in Hy as (a & <- & Ha). apply H, Ha.
+Qed.
+
+Lemma mgr_eq_turn k : {k = MTurn} + {k <> MTurn}.
+Proof. destruct k; (left; reflexivity) || (right; discriminate). Qed.
+Lemma mgr_eq_dyn k : {k = MDyn} + {k <> MDyn}.
+Proof. destruct k; (left; reflexivity) || (right; discriminate). Qed.
+
+Section ChkModel.
+  Variable sc : script.
+  Variable k : mgr.
+  Hypothesis Hwf : wf_script k sc = true.
+  Notation SS := (script_sim sc).
+  Notation n := (sc_n sc).
+
+  Lemma wf_k : k <> MTurnPrefix.
+  Proof. intros E. rewrite E in Hwf. discriminate. Qed.
+
+  Lemma wf_sim_ok : sim_ok SS k.
+  Proof.
+    destruct k; cbn [sim_ok]; try exact I; [|discriminate]. unfold wf_script in Hwf.
+    apply andb_true_iff in Hwf as [H1 H2]. split.
+    - apply negb_true_iff, Nat.eqb_neq in H1. exact H1.
+    - intros s. unfold nom_ok. change (sim_next SS s) with (r_next (row_at sc (s_t s))). unfold row_at.
+      destruct (nth_in_or_default (Nat.min (s_t s) (length (sc_rows sc) - 1)) (sc_rows sc) empty_row)
+        as [Hin| ->]; [|split; [constructor|intros a []]].
+      rewrite forallb_forall in H2. specialize (H2 _ Hin). apply andb_true_iff in H2 as [N1 N2].
+      split; [apply nodupb_true, N1|]. intros a Ha. rewrite forallb_forall in N2.
+      apply (agents_In SS). change (sim_n SS) with n. apply Nat.ltb_lt, N2, Ha.
+  Qed.
+
+  Lemma wf_stable_ok : stable_ok SS k.
+  Proof. destruct k; cbn; try exact I; apply ss_done_stable. Qed.
+
+  (* ---------------- ghost of the checker vs state of the model ---------------- *)
+  Record liverel (g : ghost) (m : mstate sst) : Prop := {
+    l_done : g_done g = m_done m;
+    l_t : g_t g = s_t (m_sim m);
+    l_la : length (g_accr g) = n;
+    l_ld : length (g_deliv g) = n;
+    l_lp : length (s_pend (m_sim m)) = n;
+    l_rew : forall a, a < n ->
+            (nth a (g_accr g) 0 - nth a (g_deliv g) 0 = nth a (s_pend (m_sim m)) 0)%Z;
+    l_ptr : k = MTurn -> g_last g = m_ptr m;
+    l_inv : hinv SS k Live m }.
+
+  Record rel (g : ghost) (m : mstate sst) : Prop := {
+    r_oop : g_oop g = false;
+    r_ns : g_nsteps g = length (s_steps (m_sim m));
+    r_nr : g_nreads g = length (s_reads (m_sim m));
+    r_live : g_started g = true -> g_ended g = false -> liverel g m }.
+
+  (* ---------------- rewards: delivered + pending = accrued ---------------- *)
+  Lemma rew_value accr deliv pend racc a :
+    length accr = n -> length pend = n ->
+    (forall a, a < n -> (nth a accr 0 - nth a deliv 0 = nth a pend 0)%Z) -> a < n ->
+    (nth a (add_lists pend racc) 0
+     = nth a (add_lists accr (firstn n racc)) 0 - nth a deliv 0)%Z.
+  Proof.
+    intros La Lp H Ha. rewrite !nth_add_lists by lia. rewrite nth_firstn_lt by exact Ha.
+    specialize (H a Ha). lia.
+  Qed.
+
+  Lemma rew_after accr ks : forall deliv p,
+    length deliv = n -> length p = n ->
+    (forall a, a < n -> (nth a accr 0 - nth a deliv 0 = nth a p 0)%Z) ->
+    (forall a, In a ks -> a < n) ->
+    length (fold_left (fun dl a => set_nth dl a (nth a accr 0%Z)) ks deliv) = n /\
+    forall a, a < n ->
+      (nth a accr 0 - nth a (fold_left (fun dl a => set_nth dl a (nth a accr 0%Z)) ks deliv) 0
+       = nth a (zero_at p ks) 0)%Z.
+  Proof.
+    induction ks as [|b ks IH]; intros deliv p Ld Lp H Hlt; [split; assumption|].
+    cbn [fold_left]. change (zero_at p (b :: ks)) with (zero_at (set_nth p b 0%Z) ks).
+    assert (Hb : b < n) by (apply Hlt; left; reflexivity).
+    apply IH.
+    - rewrite length_set_nth. exact Ld.
+    - rewrite length_set_nth. exact Lp.
+    - intros a Ha. rewrite !nth_set_nth by lia. destruct (Nat.eqb a b) eqn:E; [apply Nat.eqb_eq in E; subst; lia|apply H, Ha].
+    - intros a Ha. apply Hlt. right. exact Ha.
+  Qed.
+
+  Lemma exp_keys_ptr t d p p' : k <> MTurn -> exp_keys sc k t d p = exp_keys sc k t d p'.
+  Proof.
+    intros Hk. pose proof wf_k as Hk'. unfold exp_keys. destruct (r_all _); [reflexivity|].
+    destruct k; try reflexivity; contradiction.
+  Qed.
+
+  (* ---------------- an accepted step: every clause holds, the relation is kept ---------------- *)
+  Lemma chk_out_model fam g m acts sh o m' SL RL :
+    rel g m -> g_started g = true -> g_ended g = false ->
+    wf_call k (CStep acts sh) = true ->
+    ss_do_call sc k m (CStep acts sh) = (ROut o, m') ->
+    extends (s_steps (m_sim m')) SL -> extends (s_reads (m_sim m')) RL ->
+    fst (chk_out sc k fam g acts sh o (length (s_steps (m_sim m')))
+                 (length (s_reads (m_sim m'))) SL RL) = 0%Z /\
+    rel (out_ghost sc k g o (length (s_steps (m_sim m'))) (length (s_reads (m_sim m')))) m'.
+  Proof.
+    intros R Hst Hen Hwc H ESL ERL.
+    pose proof wf_k as Hk. pose proof wf_sim_ok as Hs. pose proof wf_stable_ok as Hsb.
+    destruct R as [Roop Rns Rnr Rlive]. destruct (Rlive Hst Hen) as [Ld Lt La Ldl Lp Lrew Lptr Linv].
+    (* the model, in closed form *)
+    pose proof (model_step sc k m acts sh o m' Hk H) as MS. cbv zeta in MS.
+    rewrite <- Lt, <- Ld in MS.
+    set (stepped := match k with MAll => sh | _ => acts end) in *.
+    set (t := S (g_t g)) in *.
+    set (ks := exp_keys sc k t (g_done g) (m_ptr m)) in *.
+    set (p1 := s_pend (ss_step sc (m_sim m) stepped)) in *.
+    destruct MS as (Ebad & (Oobs & Orew & Odn & Oinf) & (Tt & Tp & Tst & Trd) & Dn & Alt & Ptr).
+    assert (Ep1 : p1 = add_lists (s_pend (m_sim m)) (r_acc (row_at sc t)))
+      by (unfold p1, t; rewrite Lt; reflexivity).
+    assert (Lp1 : length p1 = n) by (rewrite Ep1, length_add_lists; exact Lp).
+    change (s_t (ss_step sc (m_sim m) stepped)) with (S (s_t (m_sim m))) in Tt.
+    rewrite <- Lt in Tt. fold t in Tt.
+    change (s_steps (ss_step sc (m_sim m) stepped)) with (s_steps (m_sim m) ++ [stepped]) in Tst.
+    change (s_reads (ss_step sc (m_sim m) stepped)) with (s_reads (m_sim m)) in Trd.
+    assert (Hkeys : okeys o = ks).
+    { unfold okeys. rewrite Oobs, map_map. cbn. apply map_id. }
+    (* what holds for every simulation *)
+    unfold ss_do_call in H.
+    destruct (step_summary SS k m acts sh o m' Hs Linv H) as (W & ND & Fr & _ & _ & _ & Alf & _).
+    pose proof (step_keys_agents SS k m acts sh o m' Hs Linv H) as KA.
+    destruct W as (W1 & W2 & W3).
+    change (keys o) with (okeys o) in *. rewrite Hkeys in *.
+    assert (Klt : forall a, In a ks -> a < n).
+    { intros a Ha. apply (agents_In SS). apply KA, Ha. }
+    assert (Erew : o_rew o = map (fun a => (a, nth a p1 0%Z)) ks).
+    { rewrite Orew. apply rews_nodup; [exact ND|]. intros a Ha. rewrite Lp1. apply Klt, Ha. }
+    assert (Enew : newly o = filter (rdone sc t) ks).
+    { unfold newly. rewrite Odn. apply map_fst_filter_snd. }
+    assert (Eall : o_all o = r_all (g_row sc g) || call_in sc (g_done' g o)).
+    { unfold g_row, g_done'. fold t. rewrite Enew.
+      destruct (r_all (row_at sc t)) eqn:Er; [apply Alt; reflexivity|].
+      rewrite Alf, (Dn eq_refl), Ld.
+      assert (Es : sim_all SS (match k with MAll => m_sim m' | _ => sim_step SS (m_sim m) acts end)
+                   = false).
+      { destruct k; try contradiction.
+        - change (sim_all SS (m_sim m')) with (r_all (row_at sc (s_t (m_sim m')))). rewrite Tt. exact Er.
+        - change (r_all (row_at sc (S (s_t (m_sim m)))) = false). rewrite <- Lt. exact Er.
+        - change (r_all (row_at sc (S (s_t (m_sim m)))) = false). rewrite <- Lt. exact Er. }
+      rewrite Es. reflexivity. }
+    assert (Erall : o_all o = false -> r_all (row_at sc t) = false).
+    { intros Ho. rewrite Eall in Ho. apply orb_false_iff in Ho as [Ho _]. exact Ho. }
+    assert (Edone' : o_all o = false -> m_done m' = g_done' g o).
+    { intros Ho. unfold g_done'. rewrite Enew, (Dn (Erall Ho)). reflexivity. }
+    assert (Ekeys : ks = exp_keys sc k t (g_done g) (g_last g)).
+    { destruct (mgr_eq_turn k) as [E|E]; [rewrite (Lptr E); reflexivity|].
+      apply exp_keys_ptr, E. }
+    split.
+    - (* the clauses *)
+      assert (C01 : chk_c01 sc k g acts sh o (length (s_steps (m_sim m')))
+                            (length (s_reads (m_sim m'))) SL RL = 0%Z).
+      { unfold chk_c01. cbv zeta. rewrite Hkeys. rewrite Ebad.
+        (* 102 *)
+        rewrite Tst, app_length, Rns. cbn [length]. rewrite Nat.add_1_r, Nat.eqb_refl. cbn [negb].
+        (* 103 *)
+        assert (E103 : nth_error SL (length (s_steps (m_sim m))) = Some stepped)
+          by (apply nth_error_extends; rewrite <- Tst; exact ESL).
+        rewrite E103.
+        assert (E103b : kvs_eqb stepped sh = true).
+        { unfold stepped. cbn in Hwc. destruct k; try apply kvs_eqb_refl; exact Hwc. }
+        rewrite E103b. cbn [negb]. cbn [wf_call] in Hwc. rewrite Hwc. cbn [negb].
+        (* 104 - 107 *)
+        rewrite W1, W2, W3, !nats_eqb_refl. cbn [negb andb].
+        rewrite (nodupb_NoDup _ ND). cbn [negb].
+        rewrite (existsb_false (fun a => memb a (g_done g)) ks)
+          by (intros a Ha; apply memb_false_In; rewrite Ld; apply Fr, Ha).
+        assert (E107 : forallb (fun a => a <? n) ks = true)
+          by (apply forallb_forall; intros a Ha; apply Nat.ltb_lt, Klt, Ha).
+        rewrite E107. cbn [negb].
+        (* 108, 109 *)
+        rewrite Odn, Oobs, Oinf.
+        rewrite (forallb_map_true (fun a => (a, rdone sc t a))
+                   (fun kb => Bool.eqb (snd kb) (rdone sc (S (g_t g)) (fst kb))))
+          by (intros a _; apply eqb_reflx).
+        rewrite (forallb_map_true (fun a => (a, obsv t a))
+                   (fun kv => (snd kv =? Z.of_nat (S (g_t g)) * 100 + Z.of_nat (fst kv))%Z))
+          by (intros a _; apply Z.eqb_refl).
+        rewrite (forallb_map_true (fun a => (a, (- obsv t a)%Z))
+                   (fun kv => (snd kv =? - (Z.of_nat (S (g_t g)) * 100 + Z.of_nat (fst kv)))%Z))
+          by (intros a _; apply Z.eqb_refl).
+        cbn [negb andb].
+        (* 110 *)
+        rewrite Erew.
+        rewrite (forallb_map_true (fun a => (a, nth a p1 0%Z))
+                   (fun kv => (snd kv =? nth (fst kv) (g_accr' sc g) 0 - nth (fst kv) (g_deliv g) 0)%Z)).
+        2:{ intros a Ha. cbn [fst snd]. apply Z.eqb_eq. rewrite Ep1. unfold g_accr', g_row. fold t.
+            apply rew_value; [exact La|exact Lp|exact Lrew|apply Klt, Ha]. }
+        cbn [negb].
+        (* 111 *)
+        rewrite Trd, app_length, Rnr, Nat.eqb_refl.
+        rewrite (segment_extends (s_reads (m_sim m)) ks RL) by (rewrite <- Trd; exact ERL).
+        rewrite nats_eqb_refl. cbn [negb andb].
+        (* 112 *)
+        rewrite <- Eall, eqb_reflx. reflexivity. }
+      assert (C07 : chk_c07 sc k g o = 0%Z).
+      { unfold chk_c07. cbv zeta. rewrite Hkeys. unfold g_row. fold t.
+        pose proof Ekeys as Ek. unfold exp_keys in Ek.
+        destruct (r_all (row_at sc t)); [rewrite <- Ek, nats_eqb_refl; reflexivity|].
+        destruct k; try (exfalso; apply Hk; reflexivity);
+          rewrite <- Ek, nats_eqb_refl; reflexivity. }
+      assert (C07b : chk_c07b sc k g o = 0%Z).
+      { unfold chk_c07b. cbv zeta. destruct (o_all o) eqn:Ho; [reflexivity|].
+        pose proof (Edone' eq_refl) as Ed'. pose proof (Erall eq_refl) as Er.
+        assert (Prog : (exists a, In (a, false) (o_done o) /\ ~ In a (m_done m')) ->
+                  existsb (fun kb => negb (snd kb) && negb (memb (fst kb) (g_done' g o)))
+                          (o_done o) = true).
+        { intros (a & Ha & Hn). apply existsb_exists. exists (a, false). split; [exact Ha|].
+          cbn. rewrite <- Ed'. apply negb_true_iff, memb_false_In, Hn. }
+        destruct (existsb (fun kb => negb (snd kb) && negb (memb (fst kb) (g_done' g o)))
+                          (o_done o)) eqn:Ex; [reflexivity|].
+        assert (Pg := step_progress SS k m acts sh o m' Hs Hsb Linv H Ho).
+        destruct (mgr_eq_dyn k) as [E|E].
+        - rewrite E. rewrite E in Pg.
+          destruct (existsb (fun a => negb (memb a (g_done g)) && negb (rdone sc (S (g_t g)) a))
+                            (r_next (g_row sc g))) eqn:Ex2; [|reflexivity].
+          exfalso. apply existsb_exists in Ex2 as (a & Ha & Hc).
+          apply andb_true_iff in Hc as [Hc1 Hc2].
+          apply negb_true_iff in Hc1, Hc2. apply memb_false_In in Hc1.
+          assert (Hex : exists a, In (a, false) (o_done o) /\ ~ In a (m_done m'));
+            [|pose proof (Prog Hex) as Ex'; congruence].
+          apply Pg. intros _. exists a.
+          change (sim_next SS (sim_step SS (m_sim m) acts))
+            with (r_next (row_at sc (S (s_t (m_sim m))))).
+          change (sim_done SS (sim_step SS (m_sim m) acts) a)
+            with (rdone sc (S (s_t (m_sim m))) a).
+          rewrite <- Lt, <- Ld. unfold g_row in Ha. tauto.
+        - assert (Hex : exists a, In (a, false) (o_done o) /\ ~ In a (m_done m'))
+            by (apply Pg; intros C; contradiction).
+          pose proof (Prog Hex) as Ex'. congruence. }
+      unfold chk_out. cbn [fst]. destruct (fam =? 1)%Z; [exact C01|].
+      rewrite C07. cbn. exact C07b.
+    - (* the relation after the call *)
+      unfold out_ghost. constructor; cbn; try reflexivity.
+      intros _ Ho.
+      destruct (rew_after (g_accr' sc g) ks (g_deliv g) p1 Ldl Lp1) as (Ldl' & Lrew').
+      { intros a Ha. symmetry. rewrite Ep1. unfold g_accr', g_row. fold t.
+        apply rew_value; [exact La|exact Lp|exact Lrew|exact Ha]. }
+      { exact Klt. }
+      constructor; cbn.
+      + symmetry. apply Edone', Ho.
+      + symmetry. exact Tt.
+      + unfold g_accr'. rewrite length_add_lists. exact La.
+      + unfold g_deliv'. rewrite Hkeys. exact Ldl'.
+      + rewrite Tp. rewrite length_zero_at. exact Lp1.
+      + intros a Ha. unfold g_deliv'. rewrite Hkeys, Tp. apply Lrew', Ha.
+      + intros E. rewrite Ptr. unfold g_last', exp_ptr. rewrite E. unfold g_row. fold t.
+        rewrite (Lptr E). reflexivity.
+      + assert (Hi := hinv_step SS k Live m (CStep acts sh) (ROut o) m' Hs Linv eq_refl H).
+        cbn [next_phase] in Hi. rewrite Ho in Hi. exact Hi.
+  Qed.
+
+  (* ---------------- a reset ---------------- *)
+  Definition reset_keys : list nat :=
+    match k with
+    | MAll => corder sc
+    | MTurn | MTurnPrefix => firstn 1 (corder sc)
+    | MDyn => r_next (row_at sc 0)
+    end.
+
+  Lemma model_reset m obs m' :
+    ss_do_call sc k m CReset = (RObs obs, m') ->
+    obs = map (fun a => (a, obsv 0 a)) reset_keys /\
+    m_sim m' = ss_reset sc (m_sim m) /\ m_done m' = pre_done sc k /\
+    (k = MTurn -> m_ptr m' = 1 mod length (corder sc)).
+  Proof.
+    intros H. pose proof wf_k as Hk. unfold ss_do_call in H. unfold reset_keys.
+    destruct k; [| | |contradiction]; cbn [do_call] in H.
+    - unfold all_reset in H. rewrite ss_thread_obs in H. injection H as <- <-.
+      change (filter (fun a => negb (memb a (nonlearning SS))) (agents SS))
+        with (live SS (nonlearning SS)).
+      rewrite (live_nonlearning SS). cbn [m_sim m_done]. split; [reflexivity|].
+      split; [reflexivity|]. split; [reflexivity|discriminate].
+    - unfold turn_reset in H. change (order SS) with (corder sc) in H.
+      destruct (corder sc) as [|a0 rest]; [discriminate|]. cbn in H. injection H as <- <-.
+      cbn. split; [reflexivity|]. split; [reflexivity|]. split; [reflexivity|]. reflexivity.
+    - unfold dyn_reset in H. rewrite ss_thread_obs in H. injection H as <- <-.
+      cbn [m_sim m_done]. split; [reflexivity|]. split; [reflexivity|].
+      split; [reflexivity|discriminate].
+  Qed.
+
+  Lemma reset_keys_fresh a : In a reset_keys -> memb a (pre_done sc k) = false.
+  Proof.
+    pose proof wf_k as Hk. unfold reset_keys, pre_done. intros Ha.
+    assert (Hord : In a (corder sc) ->
+                   memb a (filter (fun a => negb (clearn sc a)) (cagents sc)) = false).
+    { intros Ho. apply memb_false_In. intros C. apply filter_In in C as [_ C].
+      apply filter_In in Ho as [_ Ho]. rewrite Ho in C. discriminate. }
+    destruct k; [apply Hord, Ha| |reflexivity|contradiction].
+    apply Hord. destruct (corder sc) as [|a0 rest]; [destruct Ha|].
+    cbn in Ha. destruct Ha as [<-|[]]. left. reflexivity.
+  Qed.
+
+  Lemma chk_reset_model fam g m obs m' :
+    rel g m -> ss_do_call sc k m CReset = (RObs obs, m') ->
+    fst (chk_reset sc k fam g obs (length (s_steps (m_sim m'))) (length (s_reads (m_sim m'))))
+    = 0%Z /\
+    rel (reset_ghost sc k g (length (s_steps (m_sim m'))) (length (s_reads (m_sim m')))) m'.
+  Proof.
+    intros [Roop Rns Rnr _] H. pose proof wf_k as Hk.
+    pose proof (hinv_after_reset SS k m obs m' wf_sim_ok H) as Hi.
+    destruct (model_reset _ _ _ H) as (Eo & Es & Ed & Ep). split.
+    - unfold chk_reset. cbn [fst]. destruct (fam =? 1)%Z.
+      + unfold chk_r01. rewrite Es. cbn [ss_reset s_steps s_reads].
+        rewrite Rns, Rnr, !Nat.eqb_refl. cbn [negb andb]. rewrite Eo.
+        rewrite (forallb_map_true (fun a => (a, obsv 0 a))
+                   (fun kv => (snd kv =? Z.of_nat (fst kv))%Z))
+          by (intros a _; apply Z.eqb_refl).
+        cbn [negb]. rewrite map_map. cbn [fst]. rewrite map_id.
+        rewrite existsb_false by (apply reset_keys_fresh). reflexivity.
+      + unfold chk_r07. rewrite Eo, map_map. cbn [fst]. rewrite map_id.
+        unfold reset_keys. destruct k; try (exfalso; apply Hk; reflexivity);
+          rewrite nats_eqb_refl; reflexivity.
+    - unfold reset_ghost. constructor; cbn; try reflexivity. intros _ _.
+      constructor; cbn.
+      + symmetry. exact Ed.
+      + rewrite Es. reflexivity.
+      + apply length_zeros.
+      + apply length_zeros.
+      + rewrite Es. cbn. apply length_zeros.
+      + intros a _. rewrite Es. cbn. rewrite !nth_zeros. reflexivity.
+      + intros E. rewrite (Ep E), E. reflexivity.
+      + exact Hi.
+  Qed.
+
+  (* ---------------- the logs only grow ---------------- *)
+  Lemma ss_greach_logs s s' : greach SS s s' ->
+    s_steps s' = s_steps s /\ extends (s_reads s) (s_reads s').
+  Proof.
+    induction 1 as [s|s s' a _ IH|s s' a _ IH].
+    - split; [reflexivity|apply extends_refl].
+    - exact IH.
+    - destruct IH as (I1 & I2). split; [exact I1|].
+      eapply extends_trans; [|exact I2]. cbn. apply extends_app.
+  Qed.
+
+  Lemma ss_do_call_logs m c r m' : ss_do_call sc k m c = (r, m') ->
+    extends (s_steps (m_sim m)) (s_steps (m_sim m')) /\
+    extends (s_reads (m_sim m)) (s_reads (m_sim m')).
+  Proof.
+    intros H. destruct (do_call_sim_reach SS k m c r m' H) as [E|[G|(l & G)]].
+    - rewrite E. split; apply extends_refl.
+    - destruct (ss_greach_logs _ _ G) as (G1 & G2). rewrite G1. split; [apply extends_refl|exact G2].
+    - destruct (ss_greach_logs _ _ G) as (G1 & G2). rewrite G1. split; [apply extends_app|exact G2].
+  Qed.
+
+  Lemma ss_run_logs cs : forall m,
+    extends (s_steps (m_sim m)) (s_steps (m_sim (snd (ss_run sc k m cs)))) /\
+    extends (s_reads (m_sim m)) (s_reads (m_sim (snd (ss_run sc k m cs)))).
+  Proof.
+    induction cs as [|c cs IH]; intros m; [split; apply extends_refl|].
+    cbn [ss_run]. destruct (ss_do_call sc k m c) as [r m1] eqn:E.
+    destruct (ss_do_call_logs _ _ _ _ E) as (A1 & A2). specialize (IH m1).
+    destruct (ss_run sc k m1 cs) as [rs m2]. cbn [snd] in *. destruct IH as (B1 & B2).
+    split; eapply extends_trans; eassumption.
+  Qed.
+
+  (* ---------------- the whole history ---------------- *)
+  Lemma chk_hist_model fam cs : forall m g SL RL,
+    forallb (wf_call k) cs = true -> rel g m ->
+    extends (s_steps (m_sim (snd (ss_run sc k m cs)))) SL ->
+    extends (s_reads (m_sim (snd (ss_run sc k m cs)))) RL ->
+    chk_hist sc k fam g cs (fst (ss_run sc k m cs)) SL RL = 0%Z.
+  Proof.
+    pose proof wf_k as Hk.
+    induction cs as [|c cs IH]; intros m g SL RL Hwc R ESL ERL; [reflexivity|].
+    cbn [forallb] in Hwc. apply andb_true_iff in Hwc as [Hwc Hwcs].
+    cbn [ss_run] in *. destruct (ss_do_call sc k m c) as [r m1] eqn:E.
+    pose proof (ss_run_logs cs m1) as (M1 & M2).
+    destruct (ss_run sc k m1 cs) as [rs m2] eqn:Erun. cbn [fst snd] in *.
+    assert (ESL1 : extends (s_steps (m_sim m1)) SL) by (eapply extends_trans; eassumption).
+    assert (ERL1 : extends (s_reads (m_sim m1)) RL) by (eapply extends_trans; eassumption).
+    assert (IH' : forall g1, rel g1 m1 -> chk_hist sc k fam g1 cs rs SL RL = 0%Z).
+    { intros g1 R1. specialize (IH m1 g1 SL RL Hwcs R1). rewrite Erun in IH. apply IH; assumption. }
+    cbn [chk_hist]. rewrite (r_oop _ _ R).
+    pose proof (do_call_shape SS k m c r m1 Hk E) as Sh.
+    destruct c as [|acts sh].
+    - (* reset *)
+      destruct r as [obs|o| | |]; try contradiction.
+      + destruct (chk_reset_model fam g m obs m1 R E) as (C & R1).
+        destruct (chk_reset sc k fam g obs _ _) as [code g1] eqn:Ec. cbn [fst] in C. subst code.
+        cbn. apply IH'.
+        assert (Eg : g1 = reset_ghost sc k g (length (s_steps (m_sim m1))) (length (s_reads (m_sim m1))))
+          by (unfold chk_reset in Ec; injection Ec as _ <-; reflexivity).
+        rewrite Eg. exact R1.
+      + (* a turn-based manager without learning agents *)
+        unfold ss_do_call in E. destruct k; try (exfalso; apply Hk; reflexivity); cbn [do_call] in E.
+        * destruct (all_reset_reports_learning SS m) as (? & ? & E' & _). rewrite E' in E. discriminate.
+        * destruct (turn_reset_first_turn SS m) as [(Eo & _)|(? & ? & ? & ? & _ & E' & _)];
+            [|rewrite E' in E; discriminate].
+          change (order SS) with (corder sc) in Eo. rewrite Eo. reflexivity.
+        * destruct (dyn_reset_reports_nominated SS m) as (? & ? & E' & _). rewrite E' in E. discriminate.
+    - (* step *)
+      destruct (negb (g_started g) || g_ended g) eqn:Eph; [reflexivity|].
+      apply orb_false_iff in Eph as [Est Een]. apply negb_false_iff in Est.
+      pose proof (r_live _ _ R Est Een) as LR.
+      pose proof (l_inv _ _ LR) as Linv. pose proof (l_done _ _ LR) as Ldone.
+      pose proof wf_sim_ok as Hs.
+      assert (Ebad : existsb (fun kv => memb (fst kv) (g_done g)) acts = true \/ r <> RReject).
+      { destruct r; try (right; discriminate). left. rewrite Ldone.
+        destruct (existsb (fun kv => memb (fst kv) (m_done m)) acts) eqn:Ex; [reflexivity|].
+        exfalso. apply submits_done_false in Ex. unfold ss_do_call in E.
+        destruct k; try (apply Hk; reflexivity); cbn [do_call] in E.
+        - destruct (all_actions_unchanged SS m acts sh Ex) as (? & ? & E' & _).
+          rewrite E' in E. discriminate.
+        - pose proof (hinv_tinv SS m Linv) as Ht.
+          destruct (turn_step_cases SS m acts Ht) as [(_ & E')|[(C & _)|(_ & _ & ? & ? & E' & _)]];
+            [rewrite E' in E; discriminate|contradiction|rewrite E' in E; discriminate].
+        - destruct Hs as (_ & Hnom).
+          destruct (dyn_actions_unchanged SS m acts (Hnom _) Ex) as (? & ? & E' & _).
+          rewrite E' in E. discriminate. }
+      destruct r as [obs|o| | |]; try contradiction.
+      + (* output *)
+        destruct (chk_out_model fam g m acts sh o m1 SL RL R Est Een Hwc E ESL1 ERL1) as (C & R1).
+        destruct (chk_out sc k fam g acts sh o _ _ SL RL) as [code g1] eqn:Ec.
+        cbn [fst] in C. subst code. cbn. apply IH'.
+        assert (Eg : g1 = out_ghost sc k g o (length (s_steps (m_sim m1))) (length (s_reads (m_sim m1))))
+          by (unfold chk_out in Ec; injection Ec as _ <-; reflexivity).
+        rewrite Eg. exact R1.
+      + (* rejected *)
+        subst m1. destruct Ebad as [Eb|C]; [|contradiction]. rewrite Eb.
+        rewrite (r_ns _ _ R), (r_nr _ _ R), !Nat.eqb_refl. cbn [negb andb].
+        destruct (fam =? 1)%Z; apply IH', R.
+      + (* error: only the turn-based manager, on an empty submission *)
+        subst m1. rewrite (r_ns _ _ R), (r_nr _ _ R), !Nat.eqb_refl. cbn [negb andb].
+        unfold ss_do_call in E. destruct k; try (exfalso; apply Hk; reflexivity); cbn [do_call] in E.
+        * exfalso. unfold all_step in E. destruct (existsb _ acts); [discriminate|].
+          destruct (thread _ _ _) as [? ?]. destruct (thread _ _ _) as [? ?]. discriminate.
+        * pose proof (hinv_tinv SS m Linv) as Ht.
+          destruct (turn_step_cases SS m acts Ht) as [(Ea & _)|[(_ & E')|(_ & _ & ? & ? & E' & _)]];
+            [|rewrite E' in E; discriminate|rewrite E' in E; discriminate].
+          subst acts. apply IH', R.
+        * exfalso. unfold dyn_step in E. destruct (existsb _ acts); [discriminate|].
+          destruct (sim_all _ _); [destruct (flush _ _ _ _ _); discriminate|].
+          destruct (dyn_loop _ _ _ _ _) as [[? ?] ?]. discriminate.
+      + (* out of fuel: excluded by the invariant *)
+        exfalso. unfold ss_do_call in E.
+        destruct k; try (apply Hk; reflexivity); cbn [do_call] in E.
+        * unfold all_step in E. destruct (existsb _ acts); [discriminate|].
+          destruct (thread _ _ _) as [? ?]. destruct (thread _ _ _) as [? ?]. discriminate.
+        * pose proof (hinv_tinv SS m Linv) as Ht.
+          apply (turn_search_no_fuel_error SS m acts Ht). rewrite E. reflexivity.
+        * unfold dyn_step in E. destruct (existsb _ acts); [discriminate|].
+          destruct (sim_all _ _); [destruct (flush _ _ _ _ _); discriminate|].
+          destruct (dyn_loop _ _ _ _ _) as [[? ?] ?]. discriminate.
+  Qed.
+
+  Lemma rel_init : rel (ghost0) (init (ss_init sc)).
+  Proof. constructor; cbn; try reflexivity. discriminate. Qed.
+
+  Theorem chk_model fam cs : forallb (wf_call k) cs = true -> chk_run sc k fam cs = 0%Z.
+  Proof.
+    intros Hwc. unfold chk_run. cbv zeta.
+    apply (chk_hist_model fam cs _ _ _ _ Hwc rel_init); apply extends_refl.
+  Qed.
+End ChkModel.
+
+(* ---------------- the two instances quoted by the property files ---------------- *)
+Theorem chk_C01_model_all sc k cs :
+  wf_script k sc = true -> forallb (wf_call k) cs = true -> chk_run sc k 1 cs = 0%Z.
+Proof. intros H1 H2. apply (chk_model sc k H1 1%Z cs H2). Qed.
+
+Theorem chk_C07_model_all sc k cs :
+  wf_script k sc = true -> forallb (wf_call k) cs = true -> chk_run sc k 7 cs = 0%Z.
+Proof. intros H1 H2. apply (chk_model sc k H1 7%Z cs H2). Qed.
